@@ -10,7 +10,7 @@ From HV Require Export Base.Prelude C19.Model C19.Proofs.
 Definition impl_fixes : fixes :=
   {| fx1 := true; fx2 := true; fx3 := true; fx4 := true; fx5 := true; fx6 := true; fx7 := true; fx8 := true;
      fx9 := true;     (* C19-F9 repaired by fix: commit b37641c *)
-     fx10 := false;   (* C19-F10 is open: fixes/C19-F10.diff *)
+     fx10 := true;    (* C19-F10 repaired by fix: commit 9709c71 *)
      fx18 := true |}.
 
 Definition memn (l : list nat) (n : nat) : bool := existsb (Nat.eqb n) l.
